@@ -656,4 +656,7 @@ def targets(tier='quick'):
         for same in (True, False):
             T.append(Target('ord3/%s-%s[%s]' % (o0, o1, 'same step' if same else 'distinct steps'), 'system_dynamics._compute_ordered_nt_correlations',
                             scen_ord3(o0, o1, same), post_ord3, R3, PROP, replay=lambda ob: {'func': 'three_operators_same_step', 'inputs': {}}))
+    # last clause of the property: bath-mode kernels against the displaced-oscillator closed form (element-wise sympy engine)
+    from . import c07k
+    T.extend(c07k.targets(tier))
     return T
